@@ -89,12 +89,14 @@ struct TopoSpec {
   unsigned long flags = 0;
   int filters[HWLOC_OBJ_TYPE_MAX];   // -1 = leave default
   bool all_filter_set = false; int all_filter = 0;
+  int bulk_kind = 0, bulk_filter = 0;   // 1 = set_cache_types_filter, 2 = set_icache_types_filter, 3 = set_io_types_filter (applied before the per-type filters)
   TopoSpec() { for (auto &f : filters) f = -1; }
   std::string text() const {
     std::string s = is_native ? std::string("this-machine") : is_snapshot() ? "snapshot=" + snapname + " HWLOC_COMPONENTS=" + components : is_xml ? "xml=" + xmlpath.substr(xmlpath.rfind('/') + 1) : "synthetic=\"" + synth + "\"";
     for (auto &e : envs) s += " " + e.first + "=" + e.second;
     s += strf(" flags=0x%lx", flags);
     if (all_filter_set) s += strf(" allfilter=%d", all_filter);
+    if (bulk_kind) s += strf(" %s_types_filter=%d", bulk_kind == 1 ? "cache" : bulk_kind == 2 ? "icache" : "io", bulk_filter);
     for (int t = 0; t < HWLOC_OBJ_TYPE_MAX; t++) if (filters[t] >= 0) s += strf(" filter[%s]=%d", hwloc_obj_type_string((hwloc_obj_type_t)t), filters[t]);
     return s;
   }
@@ -143,6 +145,7 @@ static void gen_config(Draw &d, TopoSpec &sp, const SpecOpts &o) {
   }
   if (o.gen_filters && d.chance(2, 3)) {
     if (d.chance(1, 4)) { sp.all_filter_set = true; sp.all_filter = d.range(0, 3); }
+    if (d.chance(1, 5)) { sp.bulk_kind = d.range(1, 3); sp.bulk_filter = d.range(0, 3); }
     int n = d.range(0, 5);
     for (int i = 0; i < n; i++) {
       int t = d.range(0, HWLOC_OBJ_TYPE_MAX - 1); int f = d.range(0, 3);
@@ -160,6 +163,14 @@ static int apply_spec_and_load(Case &c, hwloc_topology_t t, const TopoSpec &sp) 
   int r = hwloc_topology_set_flags(t, sp.flags);
   CHECK(c, r == 0, "set_flags", "legal flag word 0x%lx rejected (errno %d)", sp.flags, errno);
   if (sp.all_filter_set) { r = hwloc_topology_set_all_types_filter(t, (enum hwloc_type_filter_e)sp.all_filter); CHECK(c, r == 0, "set_all_types_filter", "returned %d", r); }
+  if (sp.bulk_kind) {   // the three bulk setters: every type of the family gets the filter, or (illegal filter for the family) EINVAL and nothing changes
+    static const hwloc_obj_type_t fam1[] = {HWLOC_OBJ_L1CACHE, HWLOC_OBJ_L2CACHE, HWLOC_OBJ_L3CACHE, HWLOC_OBJ_L4CACHE, HWLOC_OBJ_L5CACHE, HWLOC_OBJ_L1ICACHE, HWLOC_OBJ_L2ICACHE, HWLOC_OBJ_L3ICACHE}, fam2[] = {HWLOC_OBJ_L1ICACHE, HWLOC_OBJ_L2ICACHE, HWLOC_OBJ_L3ICACHE}, fam3[] = {HWLOC_OBJ_BRIDGE, HWLOC_OBJ_PCI_DEVICE, HWLOC_OBJ_OS_DEVICE};
+    const hwloc_obj_type_t *fam = sp.bulk_kind == 1 ? fam1 : sp.bulk_kind == 2 ? fam2 : fam3; unsigned nfam = sp.bulk_kind == 1 ? 8 : 3; enum hwloc_type_filter_e bef[8], aft; for (unsigned i = 0; i < nfam; i++) hwloc_topology_get_type_filter(t, fam[i], &bef[i]);
+    enum hwloc_type_filter_e f = (enum hwloc_type_filter_e)sp.bulk_filter; errno = 0; r = sp.bulk_kind == 1 ? hwloc_topology_set_cache_types_filter(t, f) : sp.bulk_kind == 2 ? hwloc_topology_set_icache_types_filter(t, f) : hwloc_topology_set_io_types_filter(t, f);
+    bool legal = filter_is_legal(fam[0], sp.bulk_filter); enum hwloc_type_filter_e want = (sp.bulk_kind != 3 && f == HWLOC_TYPE_FILTER_KEEP_IMPORTANT) ? HWLOC_TYPE_FILTER_KEEP_ALL : f;
+    for (unsigned i = 0; i < nfam; i++) { hwloc_topology_get_type_filter(t, fam[i], &aft); if (legal) CHECK(c, r == 0 && aft == want, "bulk_filter", "bulk filter %d (kind %d): ret %d, %s has filter %d", sp.bulk_filter, sp.bulk_kind, r, hwloc_obj_type_string(fam[i]), (int)aft); else CHECK(c, aft == bef[i], "bulk_filter", "illegal bulk filter %d (kind %d): ret %d errno %d, %s has filter %d (was %d)", sp.bulk_filter, sp.bulk_kind, r, errno, hwloc_obj_type_string(fam[i]), (int)aft, (int)bef[i]); }   // (the bulk setters return 0 even then: they ignore the per-type EINVAL like set_all_types_filter)
+    c.cls(legal ? "filter:bulk" : "filter:bulk-illegal-rejected");
+  }
   for (int ty = 0; ty < HWLOC_OBJ_TYPE_MAX; ty++) if (sp.filters[ty] >= 0) {
     enum hwloc_type_filter_e before, after; hwloc_topology_get_type_filter(t, (hwloc_obj_type_t)ty, &before);
     errno = 0; r = hwloc_topology_set_type_filter(t, (hwloc_obj_type_t)ty, (enum hwloc_type_filter_e)sp.filters[ty]);
